@@ -104,7 +104,7 @@ type ppChoice struct{ pp string }
 var ppsByPaths = map[string][]string{
 	"":     {"", "a:1", "a:2"},
 	"a":    {"a:1", "a:2", "a:1,b:9", "", "a:"},
-	"a,b":  {"a:x.b:y", "a:x,b:y", "a:x", "a:1,b:2", "a:1.b:2", "b:y", "a:1"},
+	"a,b":  {"a:x.b:y", "a:x,b:y", "a:x", "a:1,b:2", "a:1.b:2", "b:y", "a:1", "a:x\".\"b\":\"y", "a:x\\,b:y"},
 	"a,!b": {"a:1,b:1", "a:1,b:2", "a:2,b:1", "a:1"},
 	"b,a":  {"a:x,b:y", "b:y.a:x", "a:x", "b:y"},
 }
